@@ -49,6 +49,10 @@ pub struct Shape {
     pub rot_mul: i32,
     #[serde(default)]
     pub rot_pow: i32,
+    /// if non-zero, a first gate queries a[0] at this rotation before any other
+    /// query is registered (so the first opening point is not x itself)
+    #[serde(default)]
+    pub first_rot: i32,
     /// number of fixed-table lookups (0..=2) and lookup_any arguments (0..=1)
     pub lookups: usize,
     #[serde(default)]
@@ -422,6 +426,14 @@ impl Circuit<F> for ShapeCircuit {
         let rot_mul = Rotation(sh.rot_mul);
         let rot_pow = Rotation(sh.rot_pow);
         let d = sh.deg.clamp(3, 6) - 1;
+        if sh.first_rot != 0 {
+            let fr = Rotation(sh.first_rot);
+            let s_never = meta.selector();
+            meta.create_gate("first_rot", |m| {
+                let x1 = m.query_advice(a[0], fr);
+                Constraints::with_selector(s_never, vec![x1.clone() - x1])
+            });
+        }
         meta.create_gate("mul", |m| {
             let x = m.query_advice(a[0], Rotation::cur());
             let y = m.query_advice(a[1], Rotation::cur());
@@ -741,6 +753,7 @@ pub fn random_shape(seed: u64) -> Shape {
         deg: rng.gen_range(3..=6),
         rot_mul: rng.gen_range(0..=1),
         rot_pow: -rng.gen_range(0..=1),
+        first_rot: [0, 0, 1, -1][rng.gen_range(0..4)],
         lookups: rng.gen_range(0..=2),
         lookup_any: rng.gen_range(0..=1),
         trash: rng.gen_range(0..=2),
